@@ -535,10 +535,72 @@ class C03(Check):
                           ["keeps_answering_concurrent_requests"], common._jsonable([p1, p2]), None))
         EVENTS.pop(key, None)
         report["extra"]["concurrency_probes"] = 2
+        # (3) two large bodies in flight at once: one client stalls (tiny receive buffer, not reading) while the other
+        #     downloads completely, then the first reads the rest; both bodies must arrive byte for byte
+        if not fails:
+            for mib in ((8,) if self.tier == "quick" else (3, 8, 24, 48)):
+                f = self.interleaved_bodies(mib)
+                report["extra"]["concurrency_probes"] += 1
+                if f is not None:
+                    fails.append(f)
+                    break
         if fails:
             report["impl_failures"] += len(fails)
             report.setdefault("extra_failing", []).extend(fails)
         return not fails
+
+    def interleaved_bodies(self, mib):
+        nblocks = mib * 256
+        body_a = (b"A" * 4095 + b"\n") * nblocks
+        body_b = (b"b" * 4095 + b"\n") * nblocks
+        port = server_port()
+        ca = self.mk("GET", [handler(act=(200, H(1), (body_a, False)))])
+        cb = self.mk("GET", [handler(act=(200, H(1), (body_b, False)))])
+        SCRIPTS[ca["path"]] = ca
+        a = socket.socket(socket.AF_INET6, socket.SOCK_STREAM)
+        a.setsockopt(socket.SOL_SOCKET, socket.SO_RCVBUF, 4096)      # before connect: small window, the server blocks in sendall
+        a.settimeout(20.0)
+        try:
+            a.connect(("::1", port))
+            me = a.getsockname()[1]
+            a.sendall(request_bytes(ca))
+            time.sleep(0.3)                                          # the first response is under way and stalled
+            raw_b, _n, _l = do_request(cb, timeout=20.0)
+            chunks = []
+            try:
+                while True:
+                    d = a.recv(1 << 20)
+                    if not d:
+                        break
+                    chunks.append(d)
+            except OSError as ex:
+                chunks.append(b"<%s>" % type(ex).__name__.encode())
+            raw_a = b"".join(chunks)
+        finally:
+            a.close()
+            SCRIPTS.pop(ca["path"], None)
+            RECORDS.pop(me, None)
+
+        def first_bad_block(raw, want):
+            p = parse_strict(raw)
+            if p is None or p[0] != 200:
+                return ("response not parseable or not 200", raw[:80])
+            got = p[3]
+            if got == want:
+                return None
+            for i in range(0, max(len(got), len(want)), 4096):
+                if got[i:i + 4096] != want[i:i + 4096]:
+                    return ("body differs in 4 KiB block %d of %d (length received %d, sent %d)" % (i // 4096, len(want) // 4096, len(got), len(want)),
+                            got[i:i + 4096][:16] + b" ... " + bytes(sorted(set(got[i:i + 4096])))[:8])
+            return ("length differs", b"")
+        bad_a, bad_b = first_bad_block(raw_a, body_a), first_bad_block(raw_b, body_b)
+        if bad_a or bad_b:
+            return ({"_extra": True, "probe": "two responses with %d MiB bodies in flight: client 1 stalls (SO_RCVBUF 4096, not reading) while "
+                                              "client 2 downloads completely, then client 1 reads the rest" % mib,
+                     "stalled_client": None if not bad_a else [bad_a[0], common._jsonable(bad_a[1])],
+                     "other_client": None if not bad_b else [bad_b[0], common._jsonable(bad_b[1])]},
+                    ["keeps_answering_concurrent_requests", "body"], None, None)
+        return None
 
     def extra_checks(self, tier, rng, report):
         if not self.concurrency_probe(report):
